@@ -57,12 +57,30 @@ Print M.
 """
 
 
+COMMENT_CHARS = ["\t", " ", " ", "a", "tail", "of", "=", ";", "|", "\"", "'", "/", "*", "#", "\\", "x1", "{", "}", "<", "@left", "$ID", "~", "!"]
+
+
+def random_comment(rng):
+    """A comment as documented (// up to the end of the line, or a block; the specification language has no # comments); bodies of tabs, blanks and printable characters
+    (text that would be tokens outside a comment)."""
+    body = "".join(rng.choice(COMMENT_CHARS) for _ in range(rng.randint(0, 8)))
+    k = rng.random()
+    if k < 0.55:
+        return " //" + body + "\n"
+    body = body.replace("*/", "* /")
+    if rng.random() < 0.5:
+        body = body + rng.choice(["\n", "\r\n", "\t"]) + body[::-1].replace("/*", "/ *").replace("*/", "* /")
+    return " /*" + body.replace("*/", "* /") + "*/ "
+
+
 def relayout(rng, toks):
     """Re-lay out a token list (source spellings) with random separators and comments."""
     out = []
     for i, t in enumerate(toks):
         out.append(t)
-        sep = rng.choice([" ", "  ", "\n", "\t", "\r\n", " /* c */ ", " // c\n", "\n\n", " /**/ ", "/* * **/"])
+        sep = rng.choice([" ", "  ", "\n", "\t", "\r\n", " /* c */ ", " // c\n", "\n\n", " /**/ ", "/* * **/", None, None, None])
+        if sep is None:
+            sep = random_comment(rng)
         out.append(sep)
     text = "".join(out)
     if rng.random() < 0.5:
